@@ -62,6 +62,32 @@ func DrawSibling(t *rapid.T, prev *OpDesc) OpDesc {
 	return d
 }
 
+// DrawStorm draws the programs of a "storm": every client runs the same
+// operation on the same receiver, give or take a parameter - the pattern in
+// which a first-use initialisation or a per-operation cache is hit by several
+// callers at once.
+func DrawStorm(t *rapid.T, nclients int) [][]OpDesc {
+	d0 := DrawOp(t)
+	if rapid.Bool().Draw(t, "stormfilter") {
+		d0.Kind = 0 // filters are the hot path where caches and fast paths get added
+	}
+	if rapid.Bool().Draw(t, "stormbase") {
+		d0.Recv = 0 // on the first base frame (the one that is sometimes huge)
+	}
+	progs := make([][]OpDesc, nclients)
+	for c := range progs {
+		d := OpDesc{Kind: d0.Kind, Recv: d0.Recv, Arg: d0.Arg, N: append([]int{}, d0.N...)}
+		if rapid.Bool().Draw(t, "stormvary") {
+			d.N[rapid.IntRange(0, nParams-1).Draw(t, "vary")] = rapid.IntRange(0, 255).Draw(t, "p")
+		}
+		progs[c] = []OpDesc{d}
+		if rapid.IntRange(0, 3).Draw(t, "stormsecond") == 0 {
+			progs[c] = append(progs[c], DrawSibling(t, &d))
+		}
+	}
+	return progs
+}
+
 // Outcome of one execution of an operation.
 type Outcome struct {
 	Canon string
